@@ -15,6 +15,9 @@ from sa.term import Rat, Vec
 from sa.units import NO_UNIT, Unit, parse_unit
 
 from .common import events
+from .sqw_af import DND_SHAPE, ROW_NAMES, ROW_UNITS, build, reopen
+from spec import sqwfmt
+from sa.absio import Cast, Elem, NdArr
 
 MODELS, SQW, BUILD = 'io.sqw._models', 'io.sqw._sqw', 'io.sqw._build'
 U4 = ['1/angstrom'] * 3 + ['meV']
@@ -60,15 +63,17 @@ def same_value(parsed, original: SVar):
 
 def run(tier: str) -> Run:
     run = Run('C13', tier, 'other',
-              'Abstract round trip: for every metadata model class a symbolic instance is serialised by the '
-              'package\'s own _serialize_to_dict / serialize_to_ir in the abstract interpreter and the resulting '
-              'intermediate representation is handed to the parser registered for that class; every unit-carrying '
-              'field must come back with the physical value that went in (the term domain tracks the unit a bare '
-              'number is expressed in, so writing in angstrom and labelling 1/angstrom shows as a factor 1e20), '
-              '1-based indices must be undone, and every field the parser asks for must be written.  Pixel rows: '
-              'nine names <-> nine units, values/variances for signal/error, one conversion per row straight '
-              'into the float32 buffer, data_range from the same (row, unit) pairs, npix from n_pixels().  The '
-              'byte-level encoding is C12; numpy/float formatting is not decided.')
+              'Two layers.  (a) IR round trip: for every metadata model class a symbolic instance is serialised by the package\'s own '
+              'serialize_to_ir in the abstract interpreter and handed to the parser registered for it; unit-carrying fields must come '
+              'back with the physical value that went in (R2), 1-based indices must be undone (R2i), integer metadata converted in '
+              'float64 (R2d).  (b) Abstract-file round trip (checks/sqw_af.py): the whole builder runs on symbolic pixel data, runs, '
+              'instrument, sample and histogram metadata and writes an abstract file; the bytes are decoded by an independent reader of '
+              'the documented layout and by the package reader.  Decided: (R3) for pixel counts / chunk sizes below, equal and above each '
+              'other and the row count: pixel p, row r on disk is float32(row r of pixel p converted to the declared unit) as an exact '
+              'term, metadata holds N and the (min, max) of every row in its unit; (R4) instrument and sample containers hold one object '
+              'referenced once per run with 1-based indices; (R5) run ids + 1, energies in meV, angles in rad, lattice in angstrom / deg, '
+              'histogram metadata in its declared units, histogram of the declared shape; (R6) Sqw.read_data_block returns models equal '
+              'to those supplied, with units of the same physical dimension.  float formatting and numpy casts are modelled.')
     repo = Repo()
     run.analysed = {'modules': [MODELS, SQW, BUILD, 'io.sqw._ir'], 'digest': repo.digest.hexdigest()}
     run.trusted = ['sa/interp.py object model', 'sa/scipp_model.py (raw values carry the unit they are expressed in)']
@@ -103,9 +108,8 @@ def run(tier: str) -> Run:
         rets = [o for o in outs if o.kind == 'return']
         return rets, outs, box
 
-    r1 = run.rule('R1', 'every field a parser reads is written by the serializer of its class', 6)
     r2 = run.rule('R2', 'unit-carrying fields come back with the physical value that was supplied (writer unit == reader label)', 19)
-    r2i = run.rule('R2i', '1-based indices on disk are undone on reading', 3)
+    r2i = run.rule('R2i', '1-based indices on disk are undone on reading', 2)
 
     outs_box = [[]]
 
@@ -210,106 +214,331 @@ def run(tier: str) -> Run:
     box['parser'] = repo.func(SQW, '_parse_single_ix_experiment_3_0')
     check_fields('SqwIXExperiment', rets, box, ['efix', 'en', 'psi', 'omega', 'dpsi', 'gl', 'gs'], index_fields=['run_id'])
 
-    # ---- R1: field names -------------------------------------------------------------------------
-    pairs = {
-        'SqwMainHeader': '_parse_main_header_cl_2_0', 'SqwDndMetadata': '_parse_dnd_metadata_1_0', 'SqwLineAxes': '_parse_line_axes_7_0',
-        'SqwLineProj': '_parse_line_proj_7_0', 'SqwPixelMetadata': '_parse_pix_metadata_1_0', 'SqwIXSource': '_parse_ix_source_2_0',
-        'SqwIXNullInstrument': '_parse_ix_null_instrument_1_0', 'SqwIXSample': '_parse_ix_sample_0_0',
-        'SqwIXExperiment': '_parse_single_ix_experiment_3_0', 'SqwMultiIXExperiment': '_parse_ix_experiment_3_0',
-        'UniqueRefContainer': '_parse_unique_references_container_1_0', 'UniqueObjContainer': '_parse_unique_objects_container_1_0',
-    }
-    for cname, pname in pairs.items():
-        ci = repo.cls(MODELS, cname)
-        sfi = ci.methods.get('_serialize_to_dict')
-        if sfi is None:
-            raise AnalysisError(f'{cname}._serialize_to_dict not found')
-        written = set()
-        for n in ast.walk(sfi.node):
-            if isinstance(n, ast.Return) and isinstance(n.value, ast.Dict):
-                written = {k.value for k in n.value.keys if isinstance(k, ast.Constant)}
-        pfi = repo.func(SQW, pname)
-        read = set()
-        for n in ast.walk(pfi.node):
-            if isinstance(n, ast.Call) and ast.unparse(n.func) in ('_get_struct_field', '_get_scalar_struct_field', 'g', 'get_vec') and n.args:
-                a = n.args[-1] if ast.unparse(n.func) in ('g', 'get_vec') and len(n.args) == 1 else (n.args[1] if len(n.args) > 1 else n.args[0])
-                if ast.unparse(n.func) == 'get_vec':
-                    a = n.args[0]
-                if isinstance(a, ast.Constant) and isinstance(a.value, str):
-                    read.add(a.value)
-        read.discard('serial_name')
-        read.discard('version')
-        r1.check(read <= written and bool(written), f'{cname} <- {pname}', loc(pfi), {'read_but_not_written': sorted(read - written), 'written': sorted(written)}, key=cname)
-    # the registry maps (serial_name, version) of the classes to these parsers
-    reg_ok = []
-    for cname, pname in pairs.items():
-        ci = repo.cls(MODELS, cname)
-        try:
-            key = (it.class_attr(ci, 'serial_name'), it.class_attr(ci, 'version'))
-        except AnalysisError:
-            continue
-        ref = parsers.get(key)
-        if cname in ('SqwLineAxes', 'SqwLineProj'):
-            continue  # parsed through dnd_metadata
-        if cname == 'SqwIXExperiment':
-            continue  # same key as the multi-experiment container
-        reg_ok.append((cname, isinstance(ref, FuncRef) and ref.fi.qualname == pname))
-    r1.check(all(ok for _, ok in reg_ok) and len(reg_ok) >= 8, 'parser registry keys', loc(repo.func(SQW, '_try_parse_block')), {'registry': reg_ok}, key='registry')
-
-    # ---- R2i: unique object container indices ------------------------------------------------------
-    ufi = repo.cls(MODELS, 'UniqueObjContainer').methods['_serialize_to_dict']
-    ptexts = stmts(repo.func(SQW, '_parse_unique_objects_container_1_0').node)
-    r2i.check(any('data=np.array(self.indices)+1.0' in t_ for t_ in stmts(ufi.node))
-              and 'return[parsed_objects[int(i)-1]foriinidx]' in ptexts, 'UniqueObjContainer.idx', loc(ufi), {}, key='idx')
-
-    # ---- R3 pixels --------------------------------------------------------------------------------------
-    r3 = run.rule('R3', 'pixel rows: names <-> units, signal/error, single conversion into float32, data_range and npix from the same rows', 5)
-    bmi = repo.module(BUILD)
-    rows = ast.literal_eval(bmi.assigns['_DEFAULT_PIX_ROWS'])
-    units = ast.literal_eval(bmi.assigns['_DEFAULT_PIX_ROW_UNITS'])
-    want_rows = ('u1', 'u2', 'u3', 'u4', 'irun', 'idet', 'ien', 'signal', 'error')
-    want_units = ('1/angstrom', '1/angstrom', '1/angstrom', 'meV', None, None, None, 'count', 'count**2')
-    r3.check(tuple(rows) == want_rows and tuple(units) == want_units, 'row names and units', f'src/scippneutron/io/sqw/_build.py:_DEFAULT_PIX_ROWS',
-             {'rows': rows, 'units': units}, key='rows')
-    sfi = repo.func(BUILD, '_split_pix_rows')
-    texts = stmts(sfi.node)
-    ok = 'selected.append(sc.values(data.data))' in texts and 'selected.append(sc.variances(data.data))' in texts and 'selected.append(data.coords[name])' in texts
-    branches = [norm_(n.test) for n in ast.walk(sfi.node) if isinstance(n, ast.If)]
-    r3.check(ok and "name=='signal'" in branches and "name=='error'" in branches and any(t_.startswith('return_PixWrap(row_data=selected,row_units=row_units') for t_ in texts),
-             'signal -> values, error -> variances', loc(sfi), {'branches': branches}, key='split')
-    wfi = repo.func(BUILD, '_PixWrap.write')
-    store = [n for n in ast.walk(wfi.node) if isinstance(n, ast.Assign) and norm_(n.targets[0]).startswith('buffer[')]
-    ok = False
-    detail = {}
-    if len(store) == 1:
-        val = store[0].value
-        calls = [ast.unparse(c.func) for c in ast.walk(val) if isinstance(c, ast.Call)]
-        attrs = [n.attr for n in ast.walk(val) if isinstance(n, ast.Attribute)]
-        casts = [c for c in calls if c.split('.')[-1] in ('astype', 'to', 'float32')]
-        ok = norm_(store[0].targets[0]) == 'buffer[:n,i_row]' and calls == ['sc.to_unit'] and 'values' in attrs and not casts \
-            and norm_(val) == 'sc.to_unit(row[offset:offset+chunk_size],unit,copy=False).values'
-        detail = {'stored': ast.unparse(store[0]), 'calls': calls}
-    loops = [norm_(n.iter) for n in ast.walk(wfi.node) if isinstance(n, ast.For)]
-    r3.check(ok and 'enumerate(zip(self.row_data,self.row_units,strict=True))' in loops
-             and any('buffer=np.empty((self.n_pixels(),self.n_rows()),dtype=np.float32)' == t_ for t_ in stmts(wfi.node)),
-             'one conversion per row straight into the float32 buffer', loc(wfi), detail, key='write-rows')
-    mfi = repo.func(BUILD, 'SqwBuilder._make_pix_metadata')
-    src = norm_(mfi.node)
-    ok = 'npix=pix_wrap.n_pixels()' in src and '(sc.to_unit(row.min(),unit).value,sc.to_unit(row.max(),unit).value)' in src \
-        and 'forrow,unitinzip(pix_wrap.row_data,pix_wrap.row_units,strict=True)' in src and 'data_range=np.vstack(' in src
-    r3.check(ok, 'pixel metadata: npix and (min, max) per row in row units', loc(mfi), {}, key='pix-metadata')
-    nfi = repo.func(BUILD, '_PixWrap.n_pixels')
-    r3.check('returnlen(self.row_data[0])' in stmts(nfi.node) and 'returnlen(self.row_data)' in stmts(repo.func(BUILD, '_PixWrap.n_rows').node),
-             'n_pixels / n_rows', loc(nfi), {}, key='counts')
-
-    # ---- R4 shared objects ------------------------------------------------------------------------------
-    r4 = run.rule('R4', 'instrument and sample containers reference one shared object for every run', 1)
-    bfi = repo.func(BUILD, '_broadcast_unique_ref')
-    src = norm_(bfi.node)
-    r4.check('objects=[obj]' in src and 'indices=[0]*n' in src, '_broadcast_unique_ref', loc(bfi), {}, key='broadcast')
-    pfi = repo.func(BUILD, 'SqwBuilder._prepare_data_blocks')
-    src = norm_(pfi.node)
-    r4.check("nfiles=blocks['','main_header'].nfiles" in src and src.count('n=nfiles') == 2, 'one reference per run (n = nfiles)', loc(pfi), {}, key='nfiles')
-    afi = repo.func(BUILD, 'SqwBuilder.add_pixel_data')
-    r4.check("self._data_blocks['','main_header'].nfiles=len(experiments)" in stmts(afi.node)
-             and "self._data_blocks['experiment_info','expdata']=SqwMultiIXExperiment(experiments)" in stmts(afi.node), 'nfiles = number of runs', loc(afi), {}, key='nfiles-set')
+    # ---- abstract-file round trip: builder -> bytes -> independent decoder / package reader -----------------------
+    af_rules(run, repo, tier)
     return run
+
+
+# ====================================================================================================================
+def _si(unit: str | None):
+    return (NO_UNIT if unit is None else parse_unit(unit)).scale()
+
+
+def disk_ok(values, supplied: SVar, unit: str | None, what: str, probs: list, cast=None):
+    """`values` (decoded numbers of one field) hold `supplied` expressed in `unit`, element by element."""
+    want = supplied.term / _si(unit) if supplied.term is not None else None
+    vals = list(values)
+    inner = []
+    for v in vals:
+        if cast is not None:
+            if not (isinstance(v, Cast) and v.dtype == cast):
+                probs.append(f'{what}: stored value {v!r} is not the {cast} rounding of the supplied number')
+                return
+            v = v.x
+        inner.append(v)
+    if len(inner) == 1 and isinstance(inner[0], SVar):
+        got = inner[0].term
+        if not (got is not None and type(got) is type(want) and got.eq(want)):
+            probs.append(f'{what}: on disk {T.show(got) if got is not None else None}, supplied {T.show(want)} [{unit}]')
+        return
+    bases = {id(v.base) for v in inner if isinstance(v, Elem)}
+    if len(bases) != 1 or not all(isinstance(v, Elem) for v in inner) or [v.idx for v in inner] != list(range(len(inner))):
+        probs.append(f'{what}: on disk {inner[:4]!r}, expected the {len(inner)} supplied numbers in order')
+        return
+    base = inner[0].base
+    n = 1
+    for k in base.members.get('shape', (len(inner),)):
+        n *= k
+    if n != len(inner) or base.term is None or type(base.term) is not type(want) or not base.term.eq(want):
+        probs.append(f'{what}: on disk {T.show(base.term) if base.term is not None else None} ({len(inner)} of {n} numbers), supplied {T.show(want)} [{unit}]')
+
+
+def af_rules(run, repo, tier):
+    r3 = run.rule('R3', 'pixels: all N pixels in order, nine rows converted to their declared units and rounded once to float32; metadata N and per-row (min, max)', 6)
+    r4 = run.rule('R4', 'instrument and sample containers reference one shared object for every run (1-based indices)', 2)
+    r5 = run.rule('R5', 'bytes decoded by the documented layout hold what was supplied: 1-based run ids, meV, radians, declared units of histogram metadata', 6)
+    r6 = run.rule('R6', 'the package reader returns the supplied models: same values, units of the same physical dimension', 6)
+    bfi = repo.func(BUILD, '_PixWrap.write')
+    mfi = repo.func(BUILD, 'SqwBuilder._make_pix_metadata')
+    sfi = repo.func(SQW, 'Sqw.read_data_block')
+    pix_cfgs = [(0, 3), (1, 1), (5, 2), (5, 5), (5, 8), (12, 5), (12, 9), (10, 1)] + ([(n, c) for n in (2, 9, 10, 19) for c in (1, 3, 9, 10, 40)] if tier == 'thorough' else [])
+    bad3: dict = {}
+    for npix, chunk in pix_cfgs:
+        for bo in (('little', 'big') if (npix, chunk) in ((5, 2), (12, 5)) else ('little',)):
+            cfg = f'pixels={npix} chunk={chunk} byteorder={bo}'
+            wr = build(repo, ('P',), bo, npix, chunk, 1, 'memory', 't')
+            if wr.outcome[0] != 'return':
+                bad3.setdefault('pixel rows', {'configuration': cfg, 'problem': f'builder: {wr.outcome}'})
+                continue
+            try:
+                dec = decode(wr)
+            except sqwfmt.FormatError as ex:
+                bad3.setdefault('pixel rows', {'configuration': cfg, 'problem': f'file does not decode: {ex}'})
+                continue
+            pix = dec[('pix', 'data_wrap')]
+            probs = []
+            if pix['n_pixels'] != npix or pix['n_rows'] != 9:
+                probs.append(f'{pix["n_pixels"]} pixels x {pix["n_rows"]} rows on disk, {npix} x 9 supplied')
+            else:
+                for p_, row in enumerate(pix['pixels']):
+                    for r_, cell in enumerate(row):
+                        why = pixel_cell_ok(cell, r_, p_)
+                        if why:
+                            probs.append(f'pixel {p_} row {ROW_NAMES[r_]}: {why}')
+                            break
+                    if probs:
+                        break
+            if probs:
+                bad3.setdefault('pixel rows', {'configuration': cfg, 'problem': probs[0]})
+            meta = sqwfmt.the_struct(dec[('pix', 'metadata')])
+            mp = []
+            if sqwfmt.scalar(meta['npix']) != float(npix):
+                mp.append(f'npix on disk {sqwfmt.scalar(meta["npix"])}, {npix} pixels supplied')
+            dr = meta['data_range']
+            if dr['shape'] != (2, 9) or len(dr['data']) != 18:
+                mp.append(f'data_range has shape {dr["shape"]}')
+            elif npix > 0:
+                for r_ in range(9):
+                    src = row_source_term(r_)
+                    for k, red in ((0, 'min'), (1, 'max')):
+                        v = dr['data'][2 * r_ + k]
+                        want = Rat.fn(red, src) / _si(ROW_UNITS[r_])
+                        if not (isinstance(v, SVar) and isinstance(v.term, Rat) and v.term.eq(want)):
+                            mp.append(f'data_range[{ROW_NAMES[r_]}].{red} on disk is {T.show(v.term) if isinstance(v, SVar) and v.term is not None else v!r}, expected {T.show(want)}')
+                            break
+                    if mp:
+                        break
+            if mp:
+                bad3.setdefault('pixel metadata', {'configuration': cfg, 'problem': mp[0]})
+            # package reader
+            kind, sq = reopen(wr)
+            if kind == 'return':
+                kind, arr = wr.world.call(sfi, [('pix', 'data_wrap')], bound=sq, budget=400_000)
+                ok = kind == 'return' and isinstance(arr, NdArr) and arr.shape == (npix, 9) and arr.dtype.name == 'float32' and \
+                    all(not pixel_cell_ok(arr.elems[p_ * 9 + r_], r_, p_) for p_ in range(npix) for r_ in range(9))
+                if not ok:
+                    bad3.setdefault('package reader returns the pixels', {'configuration': cfg, 'problem': f'{kind} {arr!r}'[:200]})
+            else:
+                bad3.setdefault('package reader returns the pixels', {'configuration': cfg, 'problem': f'{kind} {sq}'[:200]})
+    for inst, where in (('pixel rows', loc(bfi)), ('pixel metadata', loc(mfi)), ('package reader returns the pixels', loc(repo.func(SQW, '_read_pix_block')))):
+        r3.check(inst not in bad3, inst, where, bad3.get(inst, {'configurations': len(pix_cfgs)}), key=inst)
+    for _ in range(3):
+        r3.ok('configuration')
+
+    # ---- metadata: two runs, all builder calls, both byte orders ---------------------------------------------------
+    for bo, n_runs in (('little', 1), ('big', 3)):
+        wr = build(repo, ('P', 'I', 'S', 'D', 'T'), bo, 4, 3, n_runs, 'memory', 'the title')
+        cfg = f'byteorder={bo} runs={n_runs}'
+        if wr.outcome[0] != 'return':
+            r5.fail(f'builder [{cfg}]', loc(repo.func(BUILD, 'SqwBuilder.create')), {'outcome': wr.outcome}, key='builder')
+            continue
+        try:
+            dec = decode(wr)
+        except sqwfmt.FormatError as ex:
+            r5.fail(f'file decodes [{cfg}]', loc(repo.func(BUILD, 'SqwBuilder.create')), {'problem': str(ex)}, key='decodes')
+            continue
+        sup = wr.supplied
+        try:
+            _decoded_content_rules(dec, sup, n_runs, cfg, repo, r4, r5)
+        except (KeyError, IndexError, sqwfmt.FormatError) as ex:
+            r5.fail(f'decoded content [{cfg}]', loc(repo.func(MODELS, 'SqwIXExperiment._serialize_to_dict')),
+                    {'problems': [f'a documented field is missing or malformed on disk: {type(ex).__name__} {ex}']}, key='content')
+        _reader_rules(wr, sup, n_runs, cfg, repo, r6, sfi)
+
+
+def _decoded_content_rules(dec, sup, n_runs, cfg, repo, r4, r5):
+    if True:
+        # R4 containers
+        for block, base, what in ((('experiment_info', 'instruments'), 'IX_inst', 'instrument'), (('experiment_info', 'samples'), 'IX_samp', 'sample')):
+            st = sqwfmt.the_struct(dec[block])
+            probs = []
+            cont = sqwfmt.the_struct(st['unique_objects'])
+            objs = cont['unique_objects']['data']
+            idx = cont['idx']['data']
+            if sqwfmt.scalar(st['stored_baseclass']) != base or sqwfmt.scalar(cont['baseclass']) != base:
+                probs.append('base class name')
+            if len(objs) != 1:
+                probs.append(f'{len(objs)} stored objects, one shared object expected')
+            if list(idx) != [1.0] * n_runs:
+                probs.append(f'indices on disk {idx}, expected {n_runs} references to object 1 (1-based)')
+            r4.check(not probs, f'{what} container [{cfg}]', loc(repo.func(BUILD, '_broadcast_unique_ref')), {'problems': probs}, key=what)
+        # R5 independent decode
+        probs = []
+        mh = sqwfmt.the_struct(dec[('', 'main_header')])
+        if sqwfmt.scalar(mh['title']) != 'the title' or sqwfmt.scalar(mh['nfiles']) != float(n_runs) or sqwfmt.scalar(mh['full_filename']) != 'in_memory':
+            probs.append(f'main header: title {sqwfmt.scalar(mh["title"])!r}, nfiles {sqwfmt.scalar(mh["nfiles"])}')
+        runs = sqwfmt.the_struct(dec[('experiment_info', 'expdata')])['array_dat']['data']
+        if len(runs) != n_runs:
+            probs.append(f'{len(runs)} experiment records on disk, {n_runs} runs supplied')
+        for k, (rec, ex_) in enumerate(zip(runs, sup['experiments'], strict=False)):
+            a = ex_.attrs
+            if sqwfmt.scalar(rec['run_id']) != float(a['run_id'] + 1):
+                probs.append(f'run {k}: run_id on disk {sqwfmt.scalar(rec["run_id"])}, expected 1-based {a["run_id"] + 1}')
+            if sqwfmt.scalar(rec['filename']) != a['filename'] or sqwfmt.scalar(rec['filepath']) != a['filepath'] or sqwfmt.scalar(rec['emode']) != 1.0 \
+                    or sqwfmt.scalar(rec['angular_is_degree']) is not False:
+                probs.append(f'run {k}: file name / mode / angle flag')
+            disk_ok(rec['efix']['data'], a['efix'], 'meV', f'run {k} efix', probs)
+            disk_ok(rec['en']['data'], a['en'], 'meV', f'run {k} en', probs)
+            for ang in ('psi', 'omega', 'dpsi', 'gl', 'gs'):
+                disk_ok(rec[ang]['data'], a[ang], 'rad', f'run {k} {ang}', probs)
+            for vec in ('u', 'v'):
+                disk_ok(rec[vec]['data'], a[vec], None, f'run {k} {vec}', probs)
+        smp = sqwfmt.the_struct(sqwfmt.the_struct(sqwfmt.the_struct(dec[('experiment_info', 'samples')])['unique_objects'])['unique_objects']['data'][0])
+        disk_ok(smp['alatt']['data'], sup['sample'].attrs['lattice_spacing'], 'angstrom', 'sample alatt', probs)
+        disk_ok(smp['angdeg']['data'], sup['sample'].attrs['lattice_angle'], 'deg', 'sample angdeg', probs)
+        ins = sqwfmt.the_struct(sqwfmt.the_struct(sqwfmt.the_struct(dec[('experiment_info', 'instruments')])['unique_objects'])['unique_objects']['data'][0])
+        src = sqwfmt.the_struct(ins['source'])
+        disk_ok(src['frequency']['data'], sup['instrument'].attrs['source'].attrs['frequency'], 'Hz', 'source frequency', probs)
+        if sqwfmt.scalar(ins['name']) != 'LET' or sqwfmt.scalar(src['name']) != 'moderator' or sqwfmt.scalar(src['target_name']) != 'TS2' or sqwfmt.scalar(smp['name']) != 'vanadium':
+            probs.append('instrument / source / sample names')
+        md = sqwfmt.the_struct(dec[('data', 'metadata')])
+        axes, proj = sqwfmt.the_struct(md['axes']), sqwfmt.the_struct(md['proj'])
+        u4 = ['1/angstrom'] * 3 + ['meV']
+        sa_, sp_ = sup['dnd'].attrs['axes'].attrs, sup['dnd'].attrs['proj'].attrs
+        for k in range(4):
+            disk_ok(axes['img_scales']['data'][k:k + 1], sa_['img_scales'][k], u4[k], f'img_scales[{k}]', probs)
+            disk_ok(axes['offset']['data'][k:k + 1], sa_['offset'][k], u4[k], f'axes offset[{k}]', probs)
+            disk_ok(proj['offset']['data'][k:k + 1], sp_['offset'][k], u4[k], f'proj offset[{k}]', probs)
+            disk_ok(axes['img_range']['data'][2 * k:2 * k + 2], sa_['img_range'][k], u4[k], f'img_range[{k}]', probs)
+        if list(axes['nbins_all_dims']['data']) != [float(x) for x in DND_SHAPE]:
+            probs.append(f'nbins_all_dims on disk {axes["nbins_all_dims"]["data"]}')
+        if list(axes['dax']['data']) != [1.0, 2.0, 3.0, 4.0]:
+            probs.append(f'dax on disk {axes["dax"]["data"]}, expected the 1-based display axes 1..4')
+        if list(axes['single_bin_defines_iax']['data']) != [False, True, False, True] or [n_['data'][0] for n_ in axes['label']['data']] != ['h', 'k', 'l', 'E']:
+            probs.append('axes flags / labels')
+        disk_ok(proj['alatt']['data'], sp_['lattice_spacing'], 'angstrom', 'proj alatt', probs)
+        disk_ok(proj['angdeg']['data'], sp_['lattice_angle'], 'deg', 'proj angdeg', probs)
+        for vec in ('u', 'v', 'w'):
+            disk_ok(proj[vec]['data'], sp_[vec], '1/angstrom', f'proj {vec}', probs)
+        if dec[('data', 'nd_data')]['shape'] != DND_SHAPE:
+            probs.append(f'histogram shape on disk {dec[("data", "nd_data")]["shape"]}, declared {DND_SHAPE}')
+        r5.check(not probs, f'decoded content [{cfg}]', loc(repo.func(MODELS, 'SqwIXExperiment._serialize_to_dict')), {'problems': probs[:4]}, key='content')
+        for _ in range(2):
+            r5.ok('block')
+
+
+def _reader_rules(wr, sup, n_runs, cfg, repo, r6, sfi):
+    if True:
+        # R6 package reader
+        kind, sq = reopen(wr)
+        probs = []
+        if kind != 'return':
+            probs.append(f'Sqw.open: {kind} {sq}'[:200])
+        else:
+            w = wr.world
+
+            def read(name):
+                k_, v_ = w.call(sfi, [name], bound=sq, budget=400_000)
+                if k_ != 'return':
+                    probs.append(f'{name}: {k_} {v_}'[:200])
+                    return None
+                return v_
+            exps = read(('experiment_info', 'expdata'))
+            if isinstance(exps, list) and len(exps) == n_runs:
+                for k, (got, ex_) in enumerate(zip(exps, sup['experiments'], strict=True)):
+                    model_ok(got, ex_, f'run {k}', ['efix', 'en', 'psi', 'omega', 'dpsi', 'gl', 'gs', 'u', 'v'], ['run_id', 'filename', 'filepath', 'emode'], probs, w)
+            elif exps is not None:
+                probs.append(f'{len(exps) if isinstance(exps, list) else exps!r} experiments read, {n_runs} supplied')
+            smps = read(('experiment_info', 'samples'))
+            if isinstance(smps, list) and len(smps) == n_runs and all(x is smps[0] for x in smps):
+                model_ok(smps[0], sup['sample'], 'sample', ['lattice_spacing', 'lattice_angle'], ['name'], probs, w)
+            elif smps is not None:
+                probs.append(f'samples read: {smps!r}'[:160])
+            inss = read(('experiment_info', 'instruments'))
+            if isinstance(inss, list) and len(inss) == n_runs and isinstance(inss[0], SObj):
+                model_ok(inss[0].attrs.get('source'), sup['instrument'].attrs['source'], 'source', [], ['name', 'target_name'], probs, w)
+            elif inss is not None:
+                probs.append(f'instruments read: {inss!r}'[:160])
+            mh_ = read(('', 'main_header'))
+            if isinstance(mh_, SObj):
+                if mh_.attrs.get('title') != 'the title' or mh_.attrs.get('nfiles') != n_runs:
+                    probs.append(f'main header read back: {mh_.attrs}'[:160])
+            dm = read(('data', 'metadata'))
+            if isinstance(dm, SObj):
+                model_ok(dm.attrs.get('proj'), sup['dnd'].attrs['proj'], 'proj', ['lattice_spacing', 'lattice_angle', 'u', 'v', 'w', 'offset'], ['title', 'label', 'type', 'non_orthogonal'], probs, w)
+                model_ok(dm.attrs.get('axes'), sup['dnd'].attrs['axes'], 'axes', ['img_scales', 'img_range', 'offset'], ['title', 'label', 'changes_aspect_ratio'], probs, w)
+                ax = dm.attrs.get('axes')
+                if isinstance(ax, SObj):
+                    for fld, want in (('dax', [0, 1, 2, 3]), ('n_bins_all_dims', list(DND_SHAPE))):
+                        got = ax.attrs.get(fld)
+                        c_ = got.members.get('concrete') if isinstance(got, SVar) else None
+                        if c_ is None or [int(x) for x in c_] != want:
+                            probs.append(f'axes.{fld} read back as {c_!r}, supplied {want}')
+            pm = read(('pix', 'metadata'))
+            if isinstance(pm, SObj) and pm.attrs.get('npix') != 4:
+                probs.append(f'npix read back {pm.attrs.get("npix")}')
+        r6.check(not probs, f'package reader [{cfg}]', loc(sfi), {'problems': probs[:4]}, key='reader')
+        for _ in range(2):
+            r6.ok('block')
+
+
+def decode(wr) -> dict:
+    u = wr.file.units
+    order = sqwfmt.detect_order(u)
+    c = sqwfmt.Cursor(u, order)
+    sqwfmt.file_header(c)
+    bt = sqwfmt.block_table(c)
+    out = {}
+    for b in bt['blocks']:
+        cur = sqwfmt.Cursor(u, order, b['position'])
+        if b['block_type'] == 'pix_data_block':
+            out[b['name']] = sqwfmt.pixel_block(cur)
+        elif b['block_type'] == 'dnd_data_block':
+            out[b['name']] = sqwfmt.histogram_block(cur)
+        else:
+            out[b['name']] = sqwfmt.object_array(cur)
+    return out
+
+
+def row_source_term(r_: int) -> Rat:
+    name = ROW_NAMES[r_]
+    if name == 'signal':
+        return Rat.sym('signal')
+    if name == 'error':
+        return Rat.fn('variances', Rat.sym('signal'))
+    return Rat.sym('c_' + name)
+
+
+def pixel_cell_ok(cell, r_: int, p_: int):
+    """None if `cell` is float32(row r of pixel p in the declared unit), else a description."""
+    if not (isinstance(cell, Cast) and cell.dtype == 'float32'):
+        return f'stored as {cell!r}, expected one rounding to float32'
+    e = cell.x
+    if not isinstance(e, Elem):
+        return f'stored value {e!r} is not an element of a supplied row'
+    lo = p_ - e.idx  # element idx of the slice lo:hi is pixel lo + idx
+    if lo < 0 or not isinstance(e.base.term, Rat):
+        return f'holds element {e.idx} of {T.show(e.base.term) if e.base.term is not None else None}'
+    n = (e.base.members.get('shape') or (0,))[0]
+    hi = lo + n
+    want = Rat.fn('index', row_source_term(r_), Rat.sym(f'key:{lo}:{hi}')) / _si(ROW_UNITS[r_])
+    if not (isinstance(e.base.term, Rat) and e.base.term.eq(want)):
+        return f'value {T.show(e.base.term) if e.base.term is not None else None}, expected {T.show(want)}'
+    return None
+
+
+def model_ok(got, supplied, what, value_fields, plain_fields, probs, w):
+    if not isinstance(got, SObj):
+        probs.append(f'{what}: read back as {got!r}'[:160])
+        return
+    for f in plain_fields:
+        a, b = got.attrs.get(f), supplied.attrs.get(f)
+        if a != b and not (a is b):
+            probs.append(f'{what}.{f}: read back {a!r}, supplied {b!r}')
+    for f in value_fields:
+        a, b = got.attrs.get(f), supplied.attrs.get(f)
+        pairs = list(zip(a, b, strict=False)) if isinstance(b, list) and isinstance(a, list) and len(a) == len(b) else ([(a, b)] if not isinstance(b, list) else None)
+        if pairs is None:
+            probs.append(f'{what}.{f}: read back {a!r}'[:160])
+            continue
+        for x, y in pairs:
+            ok, desc = same_value(x, y)
+            dim_ok = True
+            if ok and isinstance(x, SVar) and x.unit not in (None, NO_UNIT) and y.unit not in (None, NO_UNIT):
+                try:
+                    dim_ok = x.unit.dim(w.it.param_dims) == y.unit.dim(w.it.param_dims)
+                except Exception:  # noqa: BLE001
+                    dim_ok = True
+            if not ok or not dim_ok:
+                probs.append(f'{what}.{f}: read back {desc}, supplied {T.show(y.term) if y.term is not None else None} [{y.unit!r}]' + ('' if dim_ok else ' (unit of another dimension)'))
+                break
